@@ -110,6 +110,61 @@ def _generate_all(n, wall_s):
     return out
 
 
+def _bounded_child(b, tier, seed, known, conn):
+    t0 = time.time()
+    try:
+        r = b(tier=tier, seed=seed, known=known)
+        r['wall_s'] = round(time.time() - t0, 2)
+        conn.send(json.loads(json.dumps(r, default=repr)))
+    except Exception as e:
+        conn.send({'__error__': '%r\n%s' % (e, traceback.format_exc()[-1500:])})
+    finally:
+        conn.close()
+
+
+def _run_bounded(bounded, tier, seed, known, limit):
+    """every bounded component in its own forked process (they use process pools themselves), killed after `limit` seconds"""
+    import multiprocessing as mp
+    ctx = mp.get_context('fork')
+    procs = []
+    for b in bounded:
+        pc, cc = ctx.Pipe(duplex=False)
+        p = ctx.Process(target=_bounded_child, args=(b, tier, seed, known, cc))
+        p.daemon = False
+        p.start()
+        cc.close()
+        procs.append((p, pc, time.time()))
+    out = []
+    for p, pc, t0 in procs:
+        remaining = max(1.0, limit - (time.time() - t0))
+        if pc.poll(remaining):
+            try:
+                out.append(pc.recv())
+            except EOFError:
+                out.append({'__error__': 'component process died'})
+            p.join(10)
+        else:
+            out.append({'__error__': 'timeout'})
+        if p.is_alive():
+            _kill_tree(p.pid)
+            p.join(5)
+    return out
+
+
+def _kill_tree(pid):
+    import signal
+    try:
+        kids = [int(x) for x in os.popen('pgrep -P %d' % pid).read().split()]
+    except Exception:
+        kids = []
+    for k in kids:
+        _kill_tree(k)
+    try:
+        os.kill(pid, signal.SIGKILL)
+    except OSError:
+        pass
+
+
 def func_infos(item):
     fi = item.func_info
     if fi is None:
@@ -267,14 +322,16 @@ def run_property(pid, items, bounded=(), tier='quick', seed=0, level='proof', tr
             classify('runtime contract of %s violated' % cid, cid, None, w, {'source': 'native sweep (bounded)'})
     # ---------------------------------------------------------------- bounded components
     bounded_out = []
-    for b in bounded:
-        tb = time.time()
-        try:
-            r = b(tier=tier, seed=seed, known=known)
-        except Exception as e:
-            checker_errors.append('bounded component %s crashed: %r\n%s' % (getattr(b, '__name__', b), e, traceback.format_exc()[-1500:]))
+    limit = float(os.environ.get('PYVC_BOUNDED_WALL_S', '600' if tier == 'quick' else '3600'))
+    for b, r in zip(bounded, _run_bounded(bounded, tier, seed, known, limit)):
+        bname = '%s.%s' % (getattr(b, '__module__', '?'), getattr(b, '__name__', '?'))
+        if r.get('__error__') == 'timeout':
+            # a bounded component that does not come back (e.g. the changed code loops): never a verdict by itself
+            undecided.append({'obligation': 'bounded component ' + bname, 'detail': 'no result within %ds (killed)' % limit})
             continue
-        r['wall_s'] = round(time.time() - tb, 2)
+        if r.get('__error__'):
+            checker_errors.append('bounded component %s crashed: %s' % (bname, r['__error__']))
+            continue
         for v in r.pop('violations', []):
             path = write_replay(pid, r['name'] + '/' + str(v.get('case', ''))[:60], {'property': pid, 'component': r['name'], 'witness': v})
             violations.append(('bounded component %s: %s' % (r['name'], v.get('what', 'case failed')), path, True))
